@@ -62,6 +62,9 @@ func (g *StoreOps) bytes() []byte {
 	n := r.Intn(5)
 	if g.Pair.Policy == "append" {
 		n = 1 + r.Intn(3)
+		if r.Intn(4) == 0 {
+			n = 6 + r.Intn(10) // long enough to reach past the framing of a neighbouring entry in a snapshot buffer
+		}
 	}
 	b := make([]byte, n)
 	for i := range b {
